@@ -91,12 +91,12 @@ class Gen:
                 u["mk"] = r.choice([1, 2])
                 u["mv"] = r.randrange(NM) if u["mk"] == 1 else 1
             elif p == "tg":
-                u["tgk"] = r.choice([1, 1, 2, 3])
+                u["tgk"] = r.choice([1, 1, 2, 3, 4])
                 u["tgv"] = [MISSING] * self.ntk
                 for k in r.sample(range(self.ntk), r.choice([1, 1, 2])):
                     u["tgv"][k] = NONE if r.random() < 0.2 else r.randrange(NS)
             elif p == "fd":
-                u["fdk"] = r.choice([1, 1, 2, 3])
+                u["fdk"] = r.choice([1, 1, 2, 3, 4])
                 u["fdv"] = [MISSING] * self.nfk
                 for k in r.sample(range(self.nfk), r.choice([1, 1, 2])):
                     u["fdv"][k] = NONE if r.random() < 0.2 else r.randrange(NN)
@@ -176,6 +176,7 @@ class Gen:
         elif op == "remove":
             a.update({"q": self.query(), "m": self.meas(0.7)})
             self.adapt(a, 0.6)
+            self.negfield(a)
         elif op == "drop_measurement":
             a.update({"m": r.randrange(NM)})
         elif op == "update":
@@ -184,8 +185,12 @@ class Gen:
             if x < w.get("fail", 0.1):
                 a["fail"] = r.choice([1, 1, 2, 3, -1, -2])
             self.adapt(a, 0.5)
+            self.negfield(a)
         elif op == "update_all":
             a.update({"u": self.update(), "fail": 0})
+            if r.random() < self.handles:
+                a["m"] = r.randrange(NM)           # Measurement.update_all
+                a["via"] = "handle"
             if r.random() < w.get("fail", 0.1):
                 a["fail"] = r.choice([1, 2, -1])
         return self.via(a)
@@ -194,6 +199,9 @@ class Gen:
         ops = []
         tmax = 0
         for _ in range(n):
+            if ops and self.r.random() < self.focus.get("again", 0.04):
+                ops.append({"op": "__repeat__"})      # the last remove / update once more, later in the history
+                continue
             if self.r.random() < p_read:
                 ops.append(self.read())
             else:
@@ -214,6 +222,15 @@ class Gen:
                             p["t"] = -5
                 ops.append(a)
         return ops
+
+    def negfield(self, a, p=0.2):
+        """conjoin a negated field comparison: such queries are answered by a scan even when the index is valid"""
+        if "q" in a and self.r.random() < p:
+            nf = {"k": "not", "a": {"k": "field", "key": self.r.randrange(1, self.nfk + 1), "key2": 0, "mf": 0,
+                                   "op": self.r.choice(["eq", "lt", "ge"]), "v": self.r.randrange(NN), "tf": 0}}
+            a["q"] = {"k": "and", "a": a["q"], "b": nf} if self.r.random() < 0.5 else {"k": "and", "a": nf, "b": a["q"]}
+            a["negfield"] = 1
+        return a
 
     def adapt(self, a, p=0.5):
         """mark a query-carrying operation as adaptive: when it is executed, the recorder replaces
